@@ -598,7 +598,13 @@ func c03History(c *Ctx, r *rng.R) {
 	obs = append(obs, "ObsNone")
 	push(cty.NewValueSet(ety), nil)
 	hdesc = append(hdesc, "new")
+	kfc031 := anyEqualWithDifferentHash(pool, pool)
 	fail := func(sig, msg string) {
+		if kfc031 && (sig == "C03/set-contents" || sig == "C03/set-membership") {
+			// the pool holds two members that are equal (same shortest text) and hashed apart: the set keeps both, the
+			// mathematical set one; that is KF-C03-1, whatever operation shows it
+			sig = "C03/number-hash-text"
+		}
 		c.Fail(sig, msg, map[string]interface{}{"elem": et.String(), "history": strings.Join(hdesc, "; ")})
 	}
 	// scripted scenario (bucket sharing between copies): several members with equal hash bytes, a copy, then a removal
